@@ -379,6 +379,7 @@ class ApiHistories(Contract):
     variant = "api-histories"
     symbolic = False
     has_native = True
+    native_shards = 4
     props = ("C01", "C02", "C05", "C09")
     bounded_scope = "seeded operation sequences of length 6-14 over {create group/points/curve/data, create a points object without write-through (save_on_creation=False), rename, flag, move, copy, copy then edit the copy's values in place, remove a vertex, move a data set to another object, switch a delete permission off and ask for the removal (also after a re-open), remove through the workspace / through the parent, property-group add/remove, re-open, gc}: 40 sequences (quick) / 600 (thorough) + 13 fixed; WF(file) after every close, live tree == re-opened tree, removed entities stay gone, idle open/close leaves all node digests unchanged"
     fixed = [
